@@ -158,6 +158,13 @@ func Run(args []string) *rep.Report {
 	r := rep.New()
 	runtime.GOMAXPROCS(1) // allocation measurements must not see other goroutines
 	idx, execs := 0, 0
+	// encodings handed out earlier must stay what they were (an encoder that returns memory it writes to again
+	// would corrupt metadata a caller still holds)
+	type kept struct {
+		enc, copyOf []byte
+		tc          *tcase
+	}
+	var retained []kept
 	bad := func(key string, tc *tcase, detail string) {
 		r.Diverge(rep.Divergence{Key: key, Case: tc, Detail: detail})
 	}
@@ -216,6 +223,15 @@ func Run(args []string) *rep.Report {
 			if err != nil || !bytes.Equal(enc, canonical) {
 				bad("encoding-not-sorted-concatenation", tc, fmt.Sprintf("encoded %x, sorted concatenation %x (%v)", enc, canonical, err))
 				return nil
+			}
+			for _, k := range retained {
+				if !bytes.Equal(k.enc, k.copyOf) {
+					bad("encoding-changed-after-return", k.tc, fmt.Sprintf("bytes returned by MarshalBinary were %x and are now %x after later encodings", k.copyOf, k.enc))
+				}
+			}
+			retained = append(retained, kept{enc: enc, copyOf: append([]byte(nil), enc...), tc: tc})
+			if len(retained) > 8 {
+				retained = retained[1:]
 			}
 			check(tc, enc, true, tc.Out, "round trip")
 			d := decode(enc)
